@@ -50,3 +50,32 @@ From AV Require Import Model.Src Gen.GenSrc Model.SrcShape.
 Theorem C10_source_alloc_atomic : alloc_shape_ok = true.
 Proof. vm_compute. reflexivity. Qed.
 Print Assumptions C10_source_alloc_atomic.
+
+(* ---------- when a number becomes free again ---------- *)
+From AV Require Import Model.CloseFree Proofs.CloseFreeP.
+(* The allocator hands out a number whose channel reads CLOSED.  Any number of threads in
+   close(), with or without the reader answering a broker close, statement by statement, EVERY
+   schedule: the channel reads CLOSED only after a Channel.Close or Channel.CloseOk for it has
+   been written - so a Channel.Open for a reused number never overtakes the close of its
+   previous holder. *)
+Theorem C10_closed_only_after_close_written : forall n reader sched,
+  closed_means_written (free_run true n reader sched) = true.
+Proof. exact closed_only_after_close_written. Qed.
+Print Assumptions C10_closed_only_after_close_written.
+
+(* the model is the source: read off on every run *)
+Theorem C10_source_close_leaves_closed_to_owner : closefree_shape_ok = true.
+Proof. vm_compute. reflexivity. Qed.
+Print Assumptions C10_source_close_leaves_closed_to_owner.
+
+(* the code before fix (see KNOWN_FINDINGS.txt): every close() ended with set_state(CLOSED); with
+   two closers the second marked the channel CLOSED before the first had written Channel.Close *)
+Theorem C10_every_close_finishes_refuted :
+  exists sched, closed_means_written (free_run false 2 false sched) = false.
+Proof. exact every_close_finishes_refuted. Qed.
+Print Assumptions C10_every_close_finishes_refuted.
+
+Example C10_closefree_nonvacuous :
+  let s := free_run true 3 false [0; 0; 1; 1; 2; 0; 2; 0; 1; 2]%nat in
+  fs_flag s = FlClosed /\ fs_close s = 1%nat.
+Proof. exact free_nonvacuous. Qed.
